@@ -40,6 +40,8 @@ class CannotAnalyse(Exception):
     pass
 
 
+NONE = ('agg', 'adt', 'None', (), (), 'std::option::Option')
+
 FOREIGN_ENUMS = {
     'std::option::Option': {'None': 0, 'Some': 1},
     'std::cmp::Ordering': {'Less': 255, 'Equal': 0, 'Greater': 1},  # i8 discriminants as switchInt sees them
@@ -155,6 +157,49 @@ class Explorer:
         ptrs = set()        # locals written through (their pointee changes, the pointer does not)
         ext = False
         has_call = False
+        fields = set()      # last field names of places written through pointers
+        wipe_all = [False]
+
+        def scan(body, bls, depth):
+            for b in bls:
+                bl = body.blocks[b]
+                for st in bl['stmts']:
+                    if st['k'] in ('assign', 'setdiscr'):
+                        p = st['place']
+                        if any(e['k'] == 'deref' for e in p['p']):
+                            fs = [e for e in p['p'] if e['k'] == 'field']
+                            fields.add(fs[-1]['name'] if fs and fs[-1]['name'] is not None else None)
+                        if st['k'] == 'assign' and st['rv']['k'] in ('ref', 'rawptr') and st['rv'].get('mut', True):
+                            # a &mut to a field may be written through later (take / replace / swap); a reborrow of a
+                            # whole object is not itself a write
+                            rp = st['rv']['place']
+                            if any(e['k'] == 'deref' for e in rp['p']):
+                                fs = [e for e in rp['p'] if e['k'] == 'field']
+                                if fs and fs[-1]['name'] is not None:
+                                    fields.add(fs[-1]['name'])
+                t = bl['term']
+                if t['k'] == 'call':
+                    from facts import callee_name
+                    cn = callee_name(t)
+                    if any(e['k'] == 'deref' for e in t['dest']['p']):
+                        fs = [e for e in t['dest']['p'] if e['k'] == 'field']
+                        fields.add(fs[-1]['name'] if fs and fs[-1]['name'] is not None else None)
+                    if re.match(r'^(std::option::Option::<T>::take|std::mem::replace|std::mem::swap)$', cn):
+                        fields.add(())        # writes whole slots
+                        continue
+                    if t['callee'].get('trait') in ('std::cmp::PartialEq', 'std::cmp::PartialOrd'):
+                        continue
+                    if self.purity is not None and self.purity.is_pure(cn, t):
+                        continue
+                    cb = self.facts.bodies.get(cn)
+                    if cb is not None and depth < INLINE_DEPTH and is_straight_line(cb) and not any(cn.startswith(o) for o in self.opaque):
+                        scan(cb, sorted(cb.reachable_blocks()), depth + 1)
+                        continue
+                    wipe_all[0] = True
+                if t['k'] == 'drop' and any(e['k'] == 'deref' for e in t['place']['p']):
+                    fs = [e for e in t['place']['p'] if e['k'] == 'field']
+                    fields.add(fs[-1]['name'] if fs and fs[-1]['name'] is not None else None)
+
         for b in blocks:
             bl = self.body.blocks[b]
             for st in bl['stmts']:
@@ -179,7 +224,8 @@ class Explorer:
                     ptrs.add(t['place']['l'])
                 else:
                     locs.add(t['place']['l'])
-        return (locs, ext, has_call, ptrs)
+        scan(self.body, blocks, 0)
+        return (locs, ext, has_call, ptrs, fields, wipe_all[0])
 
     # --------------------------------------------------------------- locations
     def loc_of(self, st, fr, p):
@@ -217,6 +263,10 @@ class Explorer:
             v = base[1]
             if v[0] == 'refval':
                 return v[1]
+            if v[0] == 'boxptr':
+                bx = strip_upd(v[1])
+                if bx[0] == 'call' and re.match(r'^std::boxed::Box::<T>::new$', bx[1]) and len(bx[2]) == 1:
+                    return bx[2][0]           # contents of a box created on this path
             return ('deref', v, st.epoch)
         _, fid, l = base
         f = self._frames.get(fid)
@@ -383,6 +433,9 @@ class Explorer:
             return simplify(('op', r['op'].lower(), a, b))
         if k == 'cast':
             a = self.operand(st, fr, r['op'])
+            if r['kind'].startswith('Transmute') and a[0] == 'field' and a[2] == 'pointer' and a[1][0] == 'field' \
+                    and str(a[1][2]) == '0' and r['from'].startswith('std::ptr::NonNull<'):
+                return ('boxptr', a[1][1])       # elaborated deref of a Box: pointer to its contents
             return ('cast', r['kind'], a, r['to'])
         if k == 'discr':
             return self.discr_of(self.load(st, fr, self.loc_of(st, fr, r['place'])))
@@ -408,6 +461,18 @@ class Explorer:
         if v0[0] == 'refval':
             return v0[1]
         return self.load(st, fr, (('ext', v0), ()))
+
+    @staticmethod
+    def ptr_loc(v):
+        v0 = strip_upd(v)
+        if v0[0] == 'ref':
+            return v0[1]
+        return (('ext', v0), ())
+
+    def _note_store(self, st, fr, b, t, loc, val):
+        if loc[0][0] == 'ext':
+            st.path.events.append({'k': 'store', 'loc': loc, 'val': val, 'bb': b, 'line': t['line'],
+                                   'depth': fr.depth, 'in': fr.body.id, 'via': 'move-model'})
 
     def do_call(self, st, fr, b, t):
         from facts import callee_name, callee_decl
@@ -471,6 +536,33 @@ class Explorer:
                         ret, pure = ('refval', cur[1][i[1]]), True
                     elif cur[0] == 'vec' and is_const(i):
                         ev['vec_oob'] = (i[1], len(cur[1]))
+        # 1d. Option::take / mem::replace / mem::swap move values between tracked places
+        handled = False
+        if ret is None:
+            if re.match(r'^std::option::Option::<T>::take$', name) and len(args) == 1:
+                loc = self.ptr_loc(args[0])
+                ret = self.load(st, fr, loc)
+                self.store(st, loc, NONE)
+                self._note_store(st, fr, b, t, loc, NONE)
+                handled = True
+            elif re.match(r'^std::mem::replace$', name) and len(args) == 2:
+                loc = self.ptr_loc(args[0])
+                ret = self.load(st, fr, loc)
+                self.store(st, loc, args[1])
+                self._note_store(st, fr, b, t, loc, args[1])
+                handled = True
+            elif re.match(r'^std::mem::swap$', name) and len(args) == 2:
+                l0, l1 = self.ptr_loc(args[0]), self.ptr_loc(args[1])
+                v0, v1 = self.load(st, fr, l0), self.load(st, fr, l1)
+                self.store(st, l0, v1)
+                self.store(st, l1, v0)
+                self._note_store(st, fr, b, t, l0, v1)
+                self._note_store(st, fr, b, t, l1, v0)
+                ret = ('c', ('zst', '()'))
+                handled = True
+            if handled:
+                ev['moved'] = True
+                ev['inlined'] = True     # effects are modelled exactly: no wipe of pointer memory
         # 2. straight-line local callees are inlined
         if ret is None and self.inline and fr.depth < INLINE_DEPTH and not any(name.startswith(o) for o in self.opaque):
             cb = self.facts.bodies.get(name)
@@ -482,7 +574,7 @@ class Explorer:
         if ret is None:
             if self.purity is not None and self.purity.is_pure(name, t):
                 pure = True
-                ret = ('pcall', name, args, st.epoch)
+                ret = ('pcall', name, args, 0 if self.purity.is_functional(name, t) else st.epoch)
             else:
                 ret = ('call', name, args, site)
         if not pure:
@@ -589,7 +681,7 @@ class Explorer:
             raise CannotAnalyse('more than %d paths in %s' % (MAX_PATHS, self.body.id))
 
     def _havoc(self, st, h):
-        locs, ext, has_call, ptrs = self.loop_havoc[h]
+        locs, ext, has_call, ptrs, fields, wipe_all = self.loop_havoc[h]
         fid = self.top.id
         # a pointer written through inside the loop may point to one of our own locals
         for l in ptrs:
@@ -602,9 +694,14 @@ class Explorer:
             for l in self.mut_borrowed:
                 if l not in locs:
                     self.store(st, (('loc', fid, l), ()), ('havoc', h, l))
-        if ext or has_call:
+        if wipe_all:
             for k in [k for k in st.mem if k[0][0] == 'ext']:
                 del st.mem[k]
+        elif fields:
+            for k in [k for k in st.mem if k[0][0] == 'ext']:
+                last = [e for e in k[1] if e[0] == 'f']
+                if None in fields or (not k[1] and () in fields) or (last and last[-1][1] in fields) or (k[1] and not last):
+                    del st.mem[k]
         st.epoch += 1
 
     def _run(self, st, b):
@@ -887,6 +984,8 @@ def show(v, depth=0):
         return 'modified_by[%s](%s)' % (short(v[1]), show(v[4], d))
     if k == 'rcptr':
         return 'rc(%s)' % show(v[1], d)
+    if k == 'boxptr':
+        return 'box(%s)' % show(v[1], d)
     if k == 'vec':
         return 'vec[%s]' % ', '.join(show(x, d) for x in v[1])
     if k == 'guard':
